@@ -51,8 +51,16 @@ CLAIM = dict(
     "enforced for Newton (1e-5) and on thin grids, for Bregman it is a BOUNDED known finding (unconverged <= 100 %, flagged-converged <= 15 %, "
     "measured 66 % / 4.7 %); min_symm/min_smul/min_weight_smul are conditional on a given minimum of a rational-valued seminorm cost; "
     "dispatch_total covers nine tabulated spellings; EMD.__call__ internals (normalisation, float32 signatures, cv2.EMD) are not modelled, "
-    "only its rescaling formula and its observable laws; per-rule exact duals (one dual vector per quadrature point) are not implemented: "
-    "the certified lower bound is the dual of "
+    "only its rescaling formula and its observable laws - REPLACED in round 4: "
+    "EMD.__call__'s own arithmetic IS modelled (normalisation, signature rows [weight, col*del_x, row*del_y], rescaling by integral*cell volume; "
+    "sigOf tied exactly on dyadic images through the private helpers, loudly noted if they disappear) around an ABSTRACT cv2.EMD with the "
+    "transport-metric contract IsW1 (symmetric, Euclidean distance between point masses, first-moment bound on unit-mass signatures): "
+    "emd_call_single_move, emd_call_symm, emd_call_smul (needs no contract), emd_call_first_moment are proved from it; that cv2.EMD "
+    "meets the contract is observed by the oracle only; the CORNER rule has its exact dual (one dual vector per cell and corner, "
+    "potential_lower_bound_rule / potential_lower_bound_corners, certificates found by LP, made exactly rational and re-checked by certRuleOK: "
+    "gap to the scipy minimum 0.2 %), so the 'never below the true minimum' clause is tight for CONSTANT_SUBCELL_PROJECTION and "
+    "CONSTANT_CELL_PROJECTION; for the Gauss rule (RAVIART_THOMAS) the same theorem applies but its coupling weights w_q*pt_q are irrational, "
+    "so no exactly-rational certificate exists (would need a Q(sqrt d) certificate checker): there the certified lower bound is the dual of "
     "the midpoint-rule cost (tight to 0.2 % for CONSTANT_CELL_PROJECTION, 6-16 % below the scipy upper bound for the Gauss / corner rules, "
     "whose exact dual needs one dual vector per quadrature point); cv2.EMD itself.",
     technique="Lean 4 proof (algebra of the cost functional and constraint) + metamorphic oracle on the real solvers + 1-D closed-form correspondence",
@@ -434,6 +442,26 @@ def own_rule(l1, dim):
     return None
 
 
+def corner_rule_tie(ctx, d):
+    """the model's corner rule (cornerPt / cornerW) is the implementation's reference_cell_corners as a set of (node, weight)"""
+    lines = [f"cornerrule {dim}" for dim in (1, 2, 3)]
+    got = ctx.model(lines)
+    bad = 0
+    for dim, m in zip((1, 2, 3), got):
+        try:
+            mod = sorted(tuple(float(frac(x)) for x in part.replace(":", " ").split()) for part in m.split("|"))
+        except Exception:  # noqa: BLE001
+            mod = None
+        r = call(quadrature, d, "CONSTANT_SUBCELL_PROJECTION", dim)
+        imp = None if isinstance(r, Raised) else sorted(tuple(float(x) for x in list(p) + [w]) for p, w in zip(r[0], r[1]))
+        if mod is None or imp is None or mod != imp:
+            bad += 1
+            first = (f"cornerrule {dim}", m, str(imp))
+    ctx.cov.setdefault("correspondence", {})["corner-rule(model = implementation as a set)"] = {"cases": 3, "disagreements": bad}
+    if bad:
+        ctx.mark("CORR-BROKEN", {"correspondence": "corner-rule", "request": first[0], "model": first[1], "impl": first[2]})
+
+
 def rule_facts_oracle(ctx, d):
     """hypotheses of first_moment_bound / potential_lower_bound (CellRuleFacts) on the rules the implementation returns:
     non-negative weights, total weight 1, nodes in the unit cell, first moments 1/2 - for every L1 mode and dimension."""
@@ -518,6 +546,30 @@ def emd_oracle(ctx, d):
     ctx.cov.setdefault("correspondence", {})["emd-single-move(float32 signature, rel 1e-5)"] = {"cases": len(lines), "disagreements": bad}
     if bad:
         ctx.mark("CORR-BROKEN", {"correspondence": "emd-single-move", "request": first[0], "model_square": first[1], "impl": first[2], "n_diffs": bad})
+    # signature construction of EMD.__call__ (normalise by the sum, rows [weight, col*del_x, row*del_y] in row-major order,
+    # del_y, del_x = voxel_size) against the model `sigOf`, exactly, on dyadic images whose sum is a power of two
+    slines, simpl = [], []
+    missing = 0
+    for _ in range(ctx.pick(6, 30)):
+        rows, cols = rng.randint(1, 4), rng.randint(1, 4)
+        dy, dx = rng.choice((0.25, 0.5, 1.0, 2.0, 1.5)), rng.choice((0.25, 0.5, 1.0, 0.75))
+        a = np.array([rng.randint(0, 8) / 8 for _ in range(rows * cols)])
+        a[0] += 8.0 - a.sum()  # total 8: every weight a/8 is exact in float32
+        img = image(d, a.reshape(rows, cols), [rows * dy, cols * dx])
+        try:
+            sig = e._img_to_sig(e._normalize(e._preprocess(img)), dx=tuple(img.voxel_size), time_num=1)[0]
+            simpl.append(" | ".join(" ".join(fmt(float(x)) for x in row) for row in np.asarray(sig, dtype=float)))
+        except AttributeError:
+            missing += 1
+            continue
+        except Exception as ex:  # noqa: BLE001
+            simpl.append(repr(Raised(ex)))
+        slines.append(f"sig {rows} {cols} {fmt(dy)} {fmt(dx)} {flist(a)}")
+    if slines:
+        ctx.correspond("emd-signature-construction", slines, simpl)
+    if missing:
+        ctx.notes.append(f"EMD._img_to_sig/_normalize/_preprocess not available in {missing} cases: signature construction NOT tied")
+        ctx.log("NOTE EMD signature helpers missing: signature construction not tied")
     # general pairs: symmetry, scaling, first-moment bound
     for _ in range(ctx.pick(8, 40)):
         rows, cols = rng.randint(2, 5), rng.randint(2, 5)
@@ -759,6 +811,75 @@ def dual_certificate(shape, hs, f):
     return lb, p, [x for gc in g for x in gc]
 
 
+def dual_certificate_corners(shape, hs, f):
+    """exact dual of the CORNER-rule cost: one dual vector g[c][q] per cell and corner q (coordinate a of corner q = bit a of q).
+    LP, then an exact rational certificate: p and g rounded, the (disjoint) face equations repaired exactly by spreading the
+    residual over the dual components they contain, components facing the outer boundary set to 0, everything scaled by a
+    rational rho >= max ||g[c][q]||_2. Returns (LB Fraction, p list, g list ordered cell, corner, axis) or None."""
+    from scipy.optimize import linprog
+    from scipy.sparse import lil_matrix
+
+    dim, nc = len(shape), int(np.prod(shape))
+    nq = 2 ** dim
+    faces = grid_tables(shape)
+    vol = float(np.prod(hs))
+    nv = nc + nc * nq * dim
+
+    def gi(c, q, a):
+        return nc + (c * nq + q) * dim + a
+
+    bit = lambda q, a: (q >> a) & 1  # noqa: E731
+    A_eq = lil_matrix((len(faces) + 1, nv))
+    members = []
+    for k, (a, lo, hi) in enumerate(faces):
+        A_eq[k, hi] += vol / hs[a]
+        A_eq[k, lo] -= vol / hs[a]
+        mem = [(lo, q) for q in range(nq) if bit(q, a) == 1] + [(hi, q) for q in range(nq) if bit(q, a) == 0]
+        members.append(mem)
+        for (c, q) in mem:
+            A_eq[k, gi(c, q, a)] += vol / nq
+    A_eq[len(faces), 0] = 1.0
+    dirs = sphere_dirs(dim)
+    A_ub = lil_matrix((nc * nq * len(dirs), nv))
+    for cq in range(nc * nq):
+        for j, dvec in enumerate(dirs):
+            for a in range(dim):
+                if dvec[a] != 0.0:
+                    A_ub[cq * len(dirs) + j, nc + cq * dim + a] = dvec[a]
+    cobj = np.zeros(nv)
+    cobj[:nc] = -vol * np.asarray(f, dtype=float)
+    res = linprog(cobj, A_ub=A_ub.tocsr(), b_ub=np.ones(A_ub.shape[0]), A_eq=A_eq.tocsr(), b_eq=np.zeros(len(faces) + 1),
+                  bounds=[(None, None)] * nc + [(-1.5, 1.5)] * (nc * nq * dim), method="highs")
+    if res.status != 0:
+        return None
+    Q = 2 ** 36
+    p = [Fraction(int(round(float(x) * Q)), Q) for x in res.x[:nc]]
+    H = [Fraction(float(x)) for x in hs]
+    g = {}
+    used = set()
+    for k, (a, lo, hi) in enumerate(faces):
+        mem = members[k]
+        vals = [Fraction(int(round(float(res.x[gi(c, q, a)]) * Q)), Q) for (c, q) in mem]
+        # coupling: vol/nq * sum(vals) = -(vol/h_a) (p_hi - p_lo)  <=>  sum(vals) = -nq (p_hi - p_lo) / h_a
+        target = -nq * (p[hi] - p[lo]) / H[a]
+        corr = (target - sum(vals)) / len(vals)
+        for (c, q), v in zip(mem, vals):
+            g[(c, q, a)] = v + corr
+            used.add((c, q, a))
+    gl = [[[g.get((c, q, a), Fraction(0)) for a in range(dim)] for q in range(nq)] for c in range(nc)]
+    r2 = max(sum(x * x for x in gq) for gc in gl for gq in gc)
+    rho = Fraction(int(math.ceil(math.sqrt(float(r2)) * (1 + 1e-12) * 2 ** 40)) + 1, 2 ** 40)
+    while rho * rho < r2:
+        rho += Fraction(1, 2 ** 30)
+    p = [x / rho for x in p]
+    flat = [x / rho for gc in gl for gq in gc for x in gq]
+    V = Fraction(1)
+    for x in H:
+        V *= x
+    lb = sum(pc * V * Fraction(float(fc)) for pc, fc in zip(p, f))
+    return lb, p, flat
+
+
 def primal_minimum(d, shape, hs, f, l1, seeds=4):
     """upper bound of the discrete minimum: cycle-space parametrisation + derivative-free / quasi-Newton restarts."""
     from scipy.linalg import null_space
@@ -813,6 +934,15 @@ def bf_case(cfg):
     lb, p, g = cert
     out["cert"] = dict(lb=str(lb), req=f"cert {len(shape)} {' '.join(map(str, shape))} {flist(hs)} {flist(f)} {flist(p)} {flist(g)}")
     lbf = float(lb)
+    # the exact dual of the corner-rule cost (CONSTANT_SUBCELL_PROJECTION): a tighter certified bound for that mode
+    lbc = None
+    try:
+        cc = dual_certificate_corners(shape, hs, f)
+        if cc is not None:
+            out["certq"] = dict(lb=str(cc[0]), req=f"certq {len(shape)} {' '.join(map(str, shape))} {flist(hs)} {flist(f)} {flist(cc[1])} {flist(cc[2])}")
+            lbc = float(cc[0])
+    except Exception as e:  # noqa: BLE001
+        out["certq_error"] = f"{type(e).__name__}: {e}"
     for l1 in L1:
         try:
             out["ub"][l1] = primal_minimum(d, shape, hs, f, l1, seeds=cfg.get("seeds", 4))[0]
@@ -851,9 +981,11 @@ def bf_case(cfg):
             if dist > ub * (1 + CONVERGED_OVER_MIN):
                 out["fails"].append((f"C05:converged-far-above-minimum:{method}", f"{method}:{mob}:{l1} grid {shape}: run flagged converged returns {dist!r}, more than "
                                      f"{int(CONVERGED_OVER_MIN * 100)} % above the brute-force minimum {ub!r} of the same cost functional", {**rp, "distance": dist, "upper_bound_of_minimum": ub}))
-        if dist < lbf * (1 - 1e-9) - 1e-14:
+        bound, which = (lbc, "corner-rule dual") if (l1 == "CONSTANT_SUBCELL_PROJECTION" and lbc is not None and lbc > lbf) else (lbf, "midpoint dual")
+        if dist < bound * (1 - 1e-9) - 1e-14:
             out["fails"].append((f"C05:below-certified-minimum:{method}", f"{method}:{mob}:{l1} grid {shape} ({ni} iterations, converged={r[1].get('converged')}): distance {dist!r} is below the "
-                                 f"certified lower bound {lbf!r} of the discrete minimum (dual certificate, see replay)", {**rp, "distance": dist, "lower_bound": lbf, "certificate": out["cert"]["req"]}))
+                                 f"certified lower bound {bound!r} ({which}) of the discrete minimum", {**rp, "distance": dist, "lower_bound": bound,
+                                                                                                        "certificate": (out.get("certq") if which.startswith("corner") else out["cert"])["req"]}))
     # Bregman driven to its stopping criteria (looser tolerances, many iterations), masses scaled only
     if cfg.get("bregman_converged"):
         o = options("RAVIART_THOMAS", "CELL_BASED", 2500, L=1.0, extra={"tol_residual": 1e-6, "tol_increment": 1e-6, "tol_distance": 1e-6})
@@ -903,6 +1035,27 @@ def bruteforce(ctx):
         res = pool.map(bf_case_safe, cfgs, chunksize=1)
     reqs = [r["cert"]["req"] for r in res if r["cert"]]
     model = ctx.model(reqs)
+    # per-point corner certificates: exact re-check by the Lean model (certRuleOK), value compared as a rational
+    qres = [r for r in res if r.get("certq")]
+    qmodel = ctx.model([r["certq"]["req"] for r in qres])
+    qbad = 0
+    corner_gap = 0.0
+    for r, m in zip(qres, qmodel):
+        want = f"1 {fmt(Fraction(r['certq']['lb']))}"
+        if m.strip() != want:
+            qbad += 1
+            qfirst = (r["certq"]["req"][:300], m, want)
+        ub = r["ub"].get("CONSTANT_SUBCELL_PROJECTION")
+        lbq = float(Fraction(r["certq"]["lb"]))
+        if ub and lbq > 0:
+            corner_gap = max(corner_gap, (ub - lbq) / ub)
+            if ub < lbq * (1 - 1e-9):
+                ctx.mark("TIE-BROKEN", {"bruteforce": "corner-rule upper bound below its certified lower bound (harness inconsistency)", "ub": ub, "lb": lbq})
+    ctx.cov.setdefault("correspondence", {})["corner-rule per-point dual certificates(exact check by the Lean model)"] = {"cases": len(qres), "disagreements": qbad,
+                                                                                                                      "grids_without_certificate": len([r for r in res if r["cert"] and not r.get("certq")])}
+    if qbad:
+        ctx.mark("TIE-BROKEN", {"correspondence": "corner dual certificates", "request": qfirst[0], "model": qfirst[1], "expected": qfirst[2], "n_diffs": qbad})
+    ctx.cov["corner_rule_max_relative_gap_upper_vs_exact_dual_bound"] = corner_gap
     k = 0
     bad = 0
     gaps, slack = {}, []
@@ -1002,6 +1155,7 @@ def run(ctx):
             ctx.fail(f"C05:dispatch:{k}", f"wasserstein_distance(method={METHODS[k]!r}) reaches {t[k]!r}, documented back-end is {want}", {"method": METHODS[k]})
 
     rule_facts_oracle(ctx, d)
+    corner_rule_tie(ctx, d)
     thin_correspondence(ctx, d)
     bruteforce(ctx)
     emd_oracle(ctx, d)
